@@ -9,7 +9,7 @@ from ._rt import run_case, shape_labels, RT_ASSUMPTIONS, context
 ID = 'C01'
 LEVEL = 'exploration'
 DESIGN_REF = 'DESIGN.md section 4, C01'
-RULE = ("cases: scheduler trees (depth <= 3, <= 14 jobs) with generated durations, extra "
+RULE = ("cases: scheduler trees (depth <= 3, <= 16 jobs, <= 5 members per scheduler, occasionally up to 9) with generated durations, extra "
         "zero-time yields, outcomes, flags, windows, timeouts, hash keys (set iteration "
         "order), timer tie keys and insertion orders, run on the virtual-time loop; thorough "
         "adds the complete sweep of all 64 DAGs on 4 indexed nodes x durations {0,1,2}^4 x "
